@@ -30,7 +30,8 @@ env = dict(os.environ, VERIF_EVIDENCE_DIR=out_dir, VERIF_REPLAY_DIR=out_dir)
 if scratch:
     # leave /repo alone (other work may be building against it): a scratch worktree of /repo with the change applied,
     # and a scratch worktree of /verif whose harness depends on that copy
-    repo, verif = "/tmp/seedrepo", "/tmp/vw-seed"
+    slot = os.environ.get("SEED_SLOT", "")  # parallel runs use different slots (separate scratch copies)
+    repo, verif = "/tmp/seedrepo" + slot, "/tmp/vw-seed" + slot
     head = subprocess.run(["git", "-C", "/repo", "rev-parse", "HEAD"], capture_output=True, text=True).stdout.strip()
     if not os.path.exists(repo):
         subprocess.run(["git", "-C", "/repo", "worktree", "add", "--detach", repo, head], check=True, capture_output=True)
